@@ -1764,6 +1764,15 @@ func (t *Terminal) forceRerenderList() {
 	t.prevLines = make([]itemLine, len(t.prevLines))
 }
 
+// In reverse-list layout, the position of each line of the list on the screen
+// depends on the number of header lines, so what we remember about the lines
+// is no longer valid when the number changes
+func (t *Terminal) headerLinesChanged() {
+	if t.layout == layoutReverseList {
+		t.forceRerenderList()
+	}
+}
+
 func (t *Terminal) hasHeaderWindow() bool {
 	if !t.headerVisible {
 		return false
@@ -5203,6 +5212,7 @@ func (t *Terminal) Loop() error {
 						// Need to resize header window
 						req(reqFullRedraw)
 					} else {
+						t.headerLinesChanged()
 						req(reqHeader, reqList, reqPrompt, reqInfo)
 					}
 				} else {
@@ -5626,12 +5636,15 @@ func (t *Terminal) Loop() error {
 				req(reqInfo)
 			case actShowHeader:
 				t.headerVisible = true
+				t.headerLinesChanged()
 				req(reqList, reqInfo, reqPrompt, reqHeader)
 			case actHideHeader:
 				t.headerVisible = false
+				t.headerLinesChanged()
 				req(reqList, reqInfo, reqPrompt, reqHeader)
 			case actToggleHeader:
 				t.headerVisible = !t.headerVisible
+				t.headerLinesChanged()
 				req(reqList, reqInfo, reqPrompt, reqHeader)
 			case actToggleWrap:
 				t.wrap = !t.wrap
